@@ -11,19 +11,21 @@ from collections import OrderedDict
 
 
 class BusModel:
-    __slots__ = ('labels', 'max_persist', 'lru', 'via', 'tag')
+    __slots__ = ('labels', 'max_persist', 'lru', 'via', 'tag', 'memo')
 
     def __init__(self, labels, max_persist, loaded=(), via=None, tag='root'):
         self.labels = list(labels)
         self.max_persist = max_persist
         self.lru = OrderedDict((l, None) for l in self.labels if l in set(loaded))
         self.via = dict(via or {})  # label -> how the Frame now held was obtained (evidence / finding keys)
+        self.memo = dict(self.via)  # label -> how it was last obtained, kept after eviction (used when the monitor resynchronises)
         self.tag = tag
 
     def copy(self):
         m = BusModel(self.labels, self.max_persist, tag=self.tag)
         m.lru = OrderedDict(self.lru)
         m.via = dict(self.via)
+        m.memo = dict(self.memo)
         return m
 
     @property
@@ -50,6 +52,7 @@ class BusModel:
             read.append(l)
             self.lru[l] = None
             self.via[l] = via
+            self.memo[l] = via
             if bounded:
                 while len(self.lru) > self.max_persist:
                     old, _ = self.lru.popitem(last=False)
